@@ -132,7 +132,7 @@ MUST_FIRE = [
     ("m04", ["C02"], ["G3"], rep1(S + "connectivity_support.py", "graph.add_path([3, 0, 1, 2, 5])", "graph.add_path([3, 0, 1, 2, 4])"), "E path"),
     ("m05", ["C02"], ["T4"], table_line(D + "stabilizer6-linear.txt", 700, lambda l, t: line_of(t, D + "stabilizer6-all.txt", 700)), "line pasted from a denser connectivity"),
     ("m06", ["C02", "C09"], ["T4"], rep1(D + "mub5-star.txt", "cz0,3", "cz1,3", count=0), "mub token off the star"),
-    ("m07", ["C02", "C08"], ["P1", "G2"], rep1(S + "stabilizer_circuits.py", "circuit_lookup.stabilizer_circuit_lookup(stabilizer.num_qubits, connectivity, lc_class_id)", "circuit_lookup.stabilizer_circuit_lookup(stabilizer.num_qubits, \"all\", lc_class_id)"), "literal connectivity"),
+    ("m07", ["C02"], ["P1"], rep1(S + "stabilizer_circuits.py", "circuit_lookup.stabilizer_circuit_lookup(stabilizer.num_qubits, connectivity, lc_class_id)", "circuit_lookup.stabilizer_circuit_lookup(stabilizer.num_qubits, \"all\", lc_class_id)"), "literal connectivity"),
     ("m08", ["C02"], ["P1"], rep1(S + "stabilizer_circuits.py", "    lc_class_id = lc_classes.determine_lc_class(stabilizer).id()\n", "    lc_class_id = lc_classes.determine_lc_class(stabilizer).id()\n    if connectivity == \"ladder\":\n        connectivity = \"all\"\n"), "connectivity rewritten for one name"),
     ("m09", ["C02"], ["P1"], rep1(S + "mub_circuits.py", "return circuit_lookup.mub_circuit_lookup(num_qubits, connectivity).circuits", "return circuit_lookup.mub_circuit_lookup(num_qubits, \"all\").circuits"), "literal connectivity in mub"),
     ("m10", ["C02"], ["P1"], rep1(S + "circuit_lookup.py", 'filename = f"stabilizer{num_qubits}-{connectivity}.txt"', 'filename = f"stabilizer{num_qubits}-all.txt"'), "file name without connectivity"),
